@@ -622,7 +622,7 @@ def gen_cases(rng, tier, h):
                 if m > 0 and budget >= 0:
                     c.append(line)
                     pending = True
-                    if rng.chance(0.25) and line.split()[3] == "0" and not any(l.startswith("sched") and l.split()[3] != "0" for l in c[:-1]):
+                    if rng.chance(0.25) and line.split()[3] == "0" and not any(l.startswith("sched ") and l.split()[3] != "0" for l in c[:-1]):
                         # re-initialise the tasking system while scheduled tasks may still be queued: they still run once.
                         # (Only after bursts whose closures do not schedule again themselves: a task calling schedule()
                         # concurrently with initTaskingSystem() races on the global scheduler handle - outside the usage
@@ -634,7 +634,13 @@ def gen_cases(rng, tier, h):
             elif r < 0.40 and not tsan and any(l.startswith("init ") and int(l.split()[1]) >= 3 for l in c[-1:] + c[:1]) \
                     and [l for l in c if l.startswith("init ")][-1].split()[1] not in ("1", "2") and not pending:
                 c.append("dep %d" % rng.pick([1, 3, 8]))
-            elif r < 0.50:
+            elif r < 0.45:
+                m = rng.pick([1, 2, 5, 20])
+                if budget >= 2 * m:
+                    budget -= 2 * m
+                    c.append("sched_lv %d" % m)      # named closures handed to schedule() twice each
+                    c.append("wait_all")
+            elif r < 0.52:
                 c.append("async %s %d" % (rng.pick(KINDS_A), rng.randrange(1, 500)))
             else:
                 c.append(_atask(rng))
@@ -653,6 +659,8 @@ def nontrivial(case):
         w = l.split()
         if w[0] == "sched":
             pend += int(w[1]) * (1 + int(w[3]))
+        elif w[0] == "sched_lv":
+            pend += 2 * int(w[1])
         elif w[0] == "wait_all":
             if pend >= 2:
                 return True
